@@ -85,6 +85,16 @@ func ruleSNAP1(c *Ctx) {
 				}
 			}
 		}
+		// A child takes part in the key through its own key only (seed C07/m): the child is tested for nil, asked for its
+		// GetSnapshot(), ranged over or measured when it is a slice - nothing else. A GetSnapshot that hands a child to
+		// another function or reads the child's fields renders it by a second, private rule, and two children with
+		// different keys can give the parent one key (D["Name"] rendered as the member D.Name: the struct member and the
+		// map element become one node).
+		if bad := snapChildUsedOtherwise(p, fn); bad != "" {
+			c.Fail(n+".GetSnapshot / a child takes part through its own snapshot only", bad, "a child node is used by the parent's GetSnapshot in another way than a nil test or its own GetSnapshot(): the parent's key is then not a function of the child's key, and children that differ can be rendered alike (a selector with the literal \"Name\" rendered as the member Name merges D[\"Name\"] with D.Name)")
+		} else {
+			c.OK(n+".GetSnapshot / a child takes part through its own snapshot only", p.Pos(fn.Pos()), "children are nil-tested, ranged over, or asked for GetSnapshot()")
+		}
 		sort.Strings(need)
 		sort.Strings(missing)
 		sort.Strings(noChildSnap)
@@ -1017,4 +1027,106 @@ func ruleSNAP6(c *Ctx) {
 		}
 		c.Check(bad == "", n+".GetSnapshot / children embedded verbatim", p.Pos(fn.Pos()), fmt.Sprintf("%d child snapshots, each written as it is", nChild), bad+": the substring test of IndexVariables no longer finds the variables below this node, so assignments to them stop invalidating it")
 	}
+}
+
+// snapChildUsedOtherwise returns the position of a use of a child node (a field of the receiver whose type is a pointer
+// to, or a slice of pointers to, one of the 13 node kinds) in a GetSnapshot method that is neither a nil test, a call of
+// the child's own GetSnapshot, len/range over a slice of children, nor a copy into a local; "" when there is none.
+func snapChildUsedOtherwise(p *Prog, fn *ssa.Function) string {
+	recv := receiver(fn)
+	isKind := func(t types.Type) bool {
+		for {
+			switch u := t.Underlying().(type) {
+			case *types.Slice:
+				t = u.Elem()
+				continue
+			case *types.Pointer:
+				if n, ok := u.Elem().(*types.Named); ok && n.Obj().Pkg() != nil && inModule(n.Obj().Pkg().Path()) {
+					for _, k := range nodeTypeNames {
+						if n.Obj().Name() == k {
+							return true
+						}
+					}
+				}
+			}
+			return false
+		}
+	}
+	bad := ""
+	seen := map[ssa.Value]bool{}
+	var follow func(v ssa.Value)
+	follow = func(v ssa.Value) {
+		if seen[v] || v.Referrers() == nil {
+			return
+		}
+		seen[v] = true
+		for _, r := range *v.Referrers() {
+			switch x := r.(type) {
+			case *ssa.BinOp:
+				if (x.Op == token.EQL || x.Op == token.NEQ) && (isNilConst(x.X) || isNilConst(x.Y)) {
+					continue
+				}
+				bad = p.InstrPos(x)
+			case ssa.CallInstruction:
+				cc := x.Common()
+				if b, ok := cc.Value.(*ssa.Builtin); ok && (b.Name() == "len" || b.Name() == "cap") {
+					continue
+				}
+				if calleeNameIs(x, "GetSnapshot") {
+					if cc.IsInvoke() && cc.Value == v {
+						continue
+					}
+					if !cc.IsInvoke() && len(cc.Args) > 0 && cc.Args[0] == v {
+						continue
+					}
+				}
+				bad = p.InstrPos(x.(ssa.Instruction))
+			case *ssa.Phi:
+				follow(x)
+			case *ssa.Store:
+				if x.Val == v {
+					if a, ok := x.Addr.(*ssa.Alloc); ok {
+						// a local: follow its loads
+						for _, ar := range *a.Referrers() {
+							if ld, ok := ar.(*ssa.UnOp); ok && ld.Op == token.MUL {
+								follow(ld)
+							}
+						}
+						continue
+					}
+					bad = p.InstrPos(x)
+				}
+			case *ssa.IndexAddr: // element of a slice of children
+				for _, ar := range *x.Referrers() {
+					if ld, ok := ar.(*ssa.UnOp); ok && ld.Op == token.MUL {
+						follow(ld)
+					} else {
+						bad = p.InstrPos(ar)
+					}
+				}
+			case *ssa.Range:
+				bad = p.InstrPos(x) // a map of children: not used by any node kind
+			case *ssa.DebugRef:
+			default:
+				bad = p.InstrPos(r)
+			}
+		}
+	}
+	fns := append([]*ssa.Function{fn}, fn.AnonFuncs...)
+	for _, f := range fns {
+		for _, b := range f.Blocks {
+			for _, in := range b.Instrs {
+				v, ok := in.(ssa.Value)
+				if !ok {
+					continue
+				}
+				fl, base := fieldLoad(v)
+				if fl == nil || !isKind(fl.Type()) || !isRecvOrCaptured(base, recv, f) {
+					continue
+				}
+				follow(v)
+			}
+		}
+	}
+	return bad
 }
